@@ -114,9 +114,14 @@ func (p *uPacketPacker) PackCoalescedPacket(onlyAck bool, maxSize protocol.ByteC
 		}
 	}
 
+	// [UQUIC] An Initial packet that the spec pins to an exact PacketSize is padded to that
+	// size inside the packet, whatever `size` says: nothing can be coalesced behind it.
+	initialOwnsDatagram := !onlyAck && len(initialPayload.frames) > 0 &&
+		p.uSpec.InitialPacketSpec.planFor(p.initialDatagramIdx).PacketSize > 0
+
 	// Add a Handshake packet.
 	var handshakeSealer sealer
-	if (onlyAck && size == 0) || (!onlyAck && size < maxSize-protocol.MinCoalescedPacketSize) {
+	if !initialOwnsDatagram && ((onlyAck && size == 0) || (!onlyAck && size < maxSize-protocol.MinCoalescedPacketSize)) {
 		var err error
 		handshakeSealer, err = p.cryptoSetup.GetHandshakeSealer()
 		if err != nil && err != handshake.ErrKeysDropped && err != handshake.ErrKeysNotYetAvailable {
@@ -143,7 +148,7 @@ func (p *uPacketPacker) PackCoalescedPacket(onlyAck bool, maxSize protocol.ByteC
 	var oneRTTSealer handshake.ShortHeaderSealer
 	var connID protocol.ConnectionID
 	var kp protocol.KeyPhaseBit
-	if (onlyAck && size == 0) || (!onlyAck && size < maxSize-protocol.MinCoalescedPacketSize) {
+	if !initialOwnsDatagram && ((onlyAck && size == 0) || (!onlyAck && size < maxSize-protocol.MinCoalescedPacketSize)) {
 		var err error
 		oneRTTSealer, err = p.cryptoSetup.Get1RTTSealer()
 		if err != nil && err != handshake.ErrKeysDropped && err != handshake.ErrKeysNotYetAvailable {
@@ -182,6 +187,7 @@ func (p *uPacketPacker) PackCoalescedPacket(onlyAck bool, maxSize protocol.ByteC
 		buffer:         buffer,
 		longHdrPackets: make([]*longHeaderPacket, 0, 3),
 	}
+	var datagramPadTo int // [UQUIC] see below
 	if initialPayload.length > 0 {
 		if onlyAck || len(initialPayload.frames) == 0 {
 			// TODO: uQUIC should send Initial Packet ACK if requested.
@@ -200,6 +206,15 @@ func (p *uPacketPacker) PackCoalescedPacket(onlyAck bool, maxSize protocol.ByteC
 			}
 
 			packet.longHdrPackets = append(packet.longHdrPackets, cont)
+			// [UQUIC] appendInitialPacket has padded the datagram to UDPDatagramMinSize with
+			// zeros behind the Initial packet. Packets coalesced into this datagram have to
+			// follow the Initial packet directly (a receiver stops at the first zero byte,
+			// and the padded Initial plus the other packets can exceed the packet buffer):
+			// take the padding off and put it back behind the last packet.
+			if n := int(cont.length); n < len(buffer.Data) && (handshakePayload.length > 0 || zeroRTTPayload.length > 0 || oneRTTPayload.length > 0) {
+				datagramPadTo = len(buffer.Data)
+				buffer.Data = buffer.Data[:n]
+			}
 		}
 	}
 	if handshakePayload.length > 0 {
@@ -221,6 +236,9 @@ func (p *uPacketPacker) PackCoalescedPacket(onlyAck bool, maxSize protocol.ByteC
 			return nil, err
 		}
 		packet.shortHdrPacket = &shp
+	}
+	if len(buffer.Data) < datagramPadTo {
+		buffer.Data = append(buffer.Data, make([]byte, datagramPadTo-len(buffer.Data))...)
 	}
 	return packet, nil
 }
